@@ -37,6 +37,7 @@ impl<S, K: Clone + Eq + Hash> QueueInner<S, K> {
 pub struct FairQueue<S, K: Clone> {
     block_on_no_clients: bool,
     inner: Arc<Mutex<QueueInner<S, K>>>,
+    on_stream_end: Option<Box<dyn Fn(&K) + Send + Sync>>,
 }
 
 #[derive(Clone)]
@@ -145,8 +146,12 @@ where
                     return Poll::Ready(item);
                 }
                 Poll::Ready(None) => {
-                    // Peer disconnected. Don't put the stream back.
+                    // Peer disconnected. Don't put the stream back, and let the owner
+                    // release whatever else it holds for that peer.
                     // Continue to poll other streams instead of returning None immediately.
+                    if let Some(on_stream_end) = &fair_queue.on_stream_end {
+                        on_stream_end(&event.key);
+                    }
                     continue;
                 }
                 Poll::Pending => {
@@ -179,7 +184,14 @@ impl<S, K: Clone> FairQueue<S, K> {
                 streams: HashMap::new(),
                 waker: None,
             })),
+            on_stream_end: None,
         }
+    }
+
+    /// Registers a function that is called with the key of every stream that ends
+    /// (yields `None`) while the queue is polled.
+    pub fn on_stream_end(&mut self, f: impl Fn(&K) + Send + Sync + 'static) {
+        self.on_stream_end = Some(Box::new(f));
     }
 
     pub(crate) fn inner(&self) -> Arc<Mutex<QueueInner<S, K>>> {
